@@ -293,7 +293,7 @@ def real_dumps(run, stage, sources, max_n, stride=1, maxlen=1500):
             if not r["ok"]:
                 raise Inconclusive("generator failed in " + stage)
     dumps = os.path.join(run.scratch, stage.replace(":", "_") + ".ndjson")
-    s = run.vh(["mkdumps", "--out", dumps, "--max", str(max_n), "--stride", str(stride), "--maxlen", str(maxlen)], stage + ":dumps", input_path=cases)
+    s = run.vh(["mkdumps", "--out", dumps, "--max", str(max_n), "--stride", str(stride), "--maxlen", str(maxlen), "--seed", str(run.seed)], stage + ":dumps", input_path=cases)
     run.traces -= s.get("judged", 0)   # counted when TLC has validated them
     n = (s.get("extra") or {}).get("dumps", 0)
     if n == 0:
@@ -328,12 +328,14 @@ def dump_sources(run):
             ("Gen_Expr", gen_cfg(dict(Scope="types", ShapeLeaves=3)), {}),
             ("Gen_Prog", gen_cfg(dict(Scope="bind", MaxItems=3)), {}),
             ("Gen_Prog", gen_cfg(dict(Scope="blocks", MaxItems=2)), {}),
-            ("Gen_Expr", gen_cfg(dict(Scope="sim", ShapeLeaves=3)), dict(simulate=10 ** 9, depth=14, workers=1, max_cases=30000 if q else 200000))]
+            ("Gen_Expr", gen_cfg(dict(Scope="sim", ShapeLeaves=3)), dict(simulate=10 ** 9, depth=14, workers=1, max_cases=30000 if q else 200000)),
+            # scoping programs (declarations with initialisers, shadowing, nested blocks ending and slots being used again): a seeded sample
+            ("Gen_Prog", gen_cfg(dict(Scope="scope", MaxItems=3)), dict(simulate=10 ** 9, depth=8, workers=1, max_cases=12000 if q else 80000))]
 
 
 def c10(run):
     run.rule = ("TV of real artefacts: the real compiler's dumps of TLC-generated programs (every operator x operand kind, all bind/blocks programs in scope, seeded deep "
-                "expression trees with and/or chains) are decoded by BclFormat and explored by the abstract machine of BclISA along both successors of every JFALSE; "
+                "expression trees with and/or chains, a seeded sample of the scoping programs of C02 with <= 3 items per block) are decoded by BclFormat and explored by the abstract machine of BclISA along both successors of every JFALSE; "
                 "invariants: exact tiling, RET last, operand kinds and ranges, live slots, jumps on boundaries, balanced blocks, depth >= what each instruction needs, "
                 "0 at RET, and (Unique) the same depth on every path into an offset. Non-trivial = every accepted program (distinct by source).")
     # design level: the compiler machine's code is well-formed along every path for all programs of two families
@@ -342,8 +344,11 @@ def c10(run):
     # programs whose slot numbers, POPN counts and constant indices cross 240/241 and 255/256 (all of them, no stride)
     d0, n0 = real_dumps(run, "C10:scale", dump_sources(run)[:1], 1000, stride=1, maxlen=20000)
     tlc_on_dumps(run, "C10:scale-paths", d0, n0, ("WellFormed", "Unique"))
-    dumps, n = real_dumps(run, "C10:real", dump_sources(run)[1:], 2500 if run.quick else 20000, stride=7 if run.quick else 3)
+    dumps, n = real_dumps(run, "C10:real", dump_sources(run)[1:5], 3000 if run.quick else 24000, stride=25 if run.quick else 9)
     tlc_on_dumps(run, "C10:paths", dumps, n, ("WellFormed", "Unique"))
+    d2, n2 = real_dumps(run, "C10:scoping", dump_sources(run)[5:], 1500 if run.quick else 12000, stride=5 if run.quick else 3)
+    tlc_on_dumps(run, "C10:scoping-paths", d2, n2, ("WellFormed", "Unique"))
+    n += n2
     # the jump-distance limit: beyond 65535 bytes the compiler must reject (a wrapped operand would break the invariants above);
     # dumps of that size are not fed to TLC, the closed-form expectation of Gen_Total is replayed instead
     run.gen_replay("Gen_Total", cfg(constants=dict(Scope="scale", MaxLen=1), invariants=("Emit",)), ["replay-total"], "C10:limits")
@@ -615,7 +620,7 @@ def c14(run):
     run.vh(["corpus-check", "--dir", os.path.join(vlib.VERIF, "corpus")], "C14:corpus")
     c = cfg(constants=dict(StackSize=1024, BlockStackSize=16, MaxInstr=3 if run.quick else 4), invariants=("Emit",))
     run.gen_replay("Gen_ISA", c, ["replay-isa"], "C14:isa")
-    dumps, n = real_dumps(run, "C14:real", dump_sources(run)[1:4], 1500 if run.quick else 12000, stride=11 if run.quick else 3)
+    dumps, n = real_dumps(run, "C14:real", dump_sources(run)[1:4], 2000 if run.quick else 14000, stride=30 if run.quick else 5)
     tlc_on_dumps(run, "C14:layout", dumps, n, ("RoundTrip",))
     # dumps whose sizes and lengths need 2- and 3-byte varints (string constants / identifiers / offsets of up to 2400 bytes)
     d2, n2 = real_dumps(run, "C14:sizes", [("Gen_Format", gen_cfg(dict(Scope="sizes", MaxConsts=1)), {})], 400, stride=1, maxlen=12000)
